@@ -266,6 +266,79 @@ fn shard(seed: u64, shard: u64, n: u64) -> Tally {
     t
 }
 
+/// Byte-order marks at the start of a form body: U+FEFF spelled in UTF-8 is an ordinary (if odd) character of the
+/// first parameter name and stays signed; UTF-16 text behind a UTF-16 BOM is not UTF-8 and must be refused.
+fn bom_bodies(seed: u64, shard: u64, n: u64) -> Tally {
+    let mut t = Tally::new();
+    let bodies: [(&str, &[u8], bool); 7] = [
+        ("utf8-bom-then-pairs", b"\xef\xbb\xbfa=1&b=2", true),
+        ("utf8-bom-only", b"\xef\xbb\xbf", true),
+        ("utf8-bom-inside", b"a=1&\xef\xbb\xbfb=2", true),
+        ("utf16le-bom-text", b"\xff\xfea\x00=\x001\x00", false),
+        ("utf16be-bom-text", b"\xfe\xff\x00a\x00=\x001", false),
+        ("utf16le-bom-only", b"\xff\xfe", false),
+        ("utf16be-bom-ascii", b"\xfe\xffa=1", false),
+    ];
+    for i in 0..n {
+        let mut r = Rng::keyed(seed, "C12", "bom", shard, i);
+        let mut cfg = gen_cfg(&mut r);
+        cfg.fold = true;
+        let o = GenOpts {
+            allow_form: false,
+            ..Default::default()
+        };
+        let mut l = gen_logical(&mut r, &cfg, &o);
+        l.method = "POST".into();
+        l.body.clear();
+        l.form_pairs = None;
+        l.content_type = Some(r.pick(&CT_FORM[..4]).to_vec());
+        let present = crate::gen::present_header_names(&l);
+        l.signed.retain(|s| present.contains(s));
+        let (name, body, valid_utf8) = bodies[(i as usize) % bodies.len()];
+        let ov = Overrides {
+            body_override: Some(body.to_vec()),
+            ..Default::default()
+        };
+        let mut sr = Rng::keyed(seed, "C12", "bom-spell", shard, i);
+        let mut sp = Speller {
+            r: &mut sr,
+            level: 0,
+        };
+        cfg.now = l.t;
+        let Some(wire) = crate::gen::render_signed_as_received(&l, &cfg, &mut sp, &ov) else {
+            if valid_utf8 {
+                t.count("bom_not_renderable");
+            }
+            // not UTF-8: there is no canonical form to sign; send it with a junk signature
+            let mut sr2 = Rng::keyed(seed, "C12", "bom-spell", shard, i);
+            let mut sp2 = Speller {
+                r: &mut sr2,
+                level: 0,
+            };
+            let (case, _) = make_case(&l, &cfg, &mut sp2, &ov, 0);
+            if let Some((ok, st)) = judge_one(&mut t, &case, &format!("bom/{}", name)) {
+                if !ok && st == Stage::Query {
+                    t.count("utf16_bom_body_refused_400");
+                    t.nontrivial(case.hash());
+                }
+            }
+            continue;
+        };
+        let case = Case {
+            wire,
+            cfg: cfg.clone(),
+            script: crate::model::Script::derive(&l.secret),
+        };
+        if let Some((ok, _)) = judge_one(&mut t, &case, &format!("bom/{}", name)) {
+            if ok {
+                t.count("utf8_bom_body_accepted_with_every_byte_signed");
+                t.nontrivial(case.hash());
+            }
+        }
+    }
+    t
+}
+
 /// The listed finding D7 under folding: a conformant folded request whose path carries a literal '+'.
 fn plus_in_path(seed: u64, shard: u64, n: u64) -> Tally {
     let mut t = Tally::new();
@@ -305,6 +378,8 @@ pub fn run(tier: Tier) -> i32 {
     let mut tally = ctx.par(32, |s| shard(seed, s, per));
     let plus = ctx.par(4, |s| plus_in_path(seed, s, tier.n(10, 200)));
     tally.merge(plus);
+    let bom = ctx.par(4, |s| bom_bodies(seed, s, tier.n(70, 7000)));
+    tally.merge(bom);
     if let Err(e) = &pre {
         tally.inconclusive.push(e.clone());
     }
@@ -313,6 +388,8 @@ pub fn run(tier: Tier) -> i32 {
     ctx.gate("other content types never fold", tally.get("non_form_never_folds_ok"), tier.n(1000, 20_000));
     ctx.gate("body byte flips refused when hashed verbatim", tally.get("body_flip_refused"), tier.n(3000, 50_000));
     ctx.gate("undecodable body / unknown charset refused as 400", tally.get("undecodable_refused_400"), tier.n(500, 10_000));
+    ctx.gate("form bodies starting with a UTF-8 BOM accepted with every byte signed", tally.get("utf8_bom_body_accepted_with_every_byte_signed"), tier.n(60, 6000));
+    ctx.gate("form bodies in UTF-16 behind a BOM refused as 400", tally.get("utf16_bom_body_refused_400"), tier.n(60, 6000));
     ctx.gate("bodies ≥ 64 KiB accepted when hashed verbatim", tally.get("big_body_accepted"), tier.n(50, 1000));
     let rep = Report {
         level: "exploration",
